@@ -8,7 +8,7 @@ PID = 'C01'
 LEVEL = 'exploration'
 RULE = ('(A) every single-rule FGG S -> shape for all shapes up to isomorphism in Shapes(3,2,2), Shapes(2,3,2), '
         'Shapes(2,5,2) (hub nodes with up to 10 attachments) and Shapes(3,2,2) over two node labels, x every '
-        'assignment of terminal names (same factor used twice vs two factors of one type) x domain sizes {1,2,3} x '
+        'assignment of terminal names (same factor used twice vs two factors of one type) x domain sizes {0,1,2,3} x '
         '[generic prime weights under {Real,Log,Viterbi,Bool} x {float32,float64} x {fixed-point,newton,linear}; '
         'every single-entry deviation to 0 / inf / 1 under the 4 semirings] ; observed through sum_product, '
         'sum_products and singleton_fgg(factor graph); (B) every non-recursive grammar of a bounded family over S, X, Y '
@@ -135,7 +135,7 @@ def run_case(case):
 
 def mk_ir_a(sh, names, dom):
     labs = sh[0]
-    nl = {'T': dom, 'U': dom % 3 + 1} if 'U' in labs else {'T': dom}
+    nl = {'T': dom, 'U': (dom % 3 + 1 if dom else 2)} if 'U' in labs else {'T': dom}
     return IR.single_rule_ir(sh, names, nl)
 
 
@@ -144,9 +144,11 @@ def family_a(sh, mode, r, tier='quick'):
     rot = seed() % 7
     labs, edges, ext = sh
     for names in IR.label_assignments(labs, edges, 2):
-        for dom in (1, 2, 3):
+        for dom in (0, 1, 2, 3):
             if mode == 'hub' and dom == 3 and sum(len(e) for e in edges) > 8:
                 continue
+            if dom == 0 and (mode == 'hub' or not labs):
+                continue      # empty domains: every assignment-sum over a node is empty (value zero unless no node at all)
             ir = mk_ir_a(sh, names, dom)
             wg = ('generic', rot)
             if mode == 'hub':
